@@ -102,6 +102,14 @@ def scenarios(root):
         add(f"rekey-assign-{suffix}", "rekey", (lambda d: lambda t: base(t, dest=d, dest_sp=NEW_ASSIGN))(dest),
             lambda j: setattr(j, "statepoint", dict(NEW_ASSIGN)), new=NEW_ASSIGN, dest=dest)
     add("rekey-update-statepoint", "rekey", lambda t: base(t), lambda j: j.update_statepoint({"b": 2}), new=NEW_SET)
+    # several keys at once: one state point change, not a chain of them (no intermediate state point may ever validate)
+    add("rekey-update-two-keys", "rekey", lambda t: base(t), lambda j: j.update_statepoint({"b": 2, "c": 3}),
+        new=dict(NEW_SET, c=3))
+
+    def setup_cached(t):
+        base(t)
+        signac.Project(os.path.join(t, "P")).update_cache()  # every job is listed in the persistent cache file
+    add("rekey-set-persistent-cache", "rekey", setup_cached, lambda j: j.sp.__setitem__("b", 2), new=NEW_SET)
     # move / clone
     for dest in (None, "initialised", "empty_dir"):
         suffix = {None: "dest-absent", "initialised": "dest-initialised", "empty_dir": "dest-empty-dir"}[dest]
@@ -127,7 +135,8 @@ def _swallow(fn):
 
 QUICK = ["init-fresh", "init-corrupt-file", "doc-access-initialises", "rekey-set-dest-absent", "rekey-assign-dest-absent",
          "rekey-assign-dest-initialised", "rekey-assign-dest-empty-dir", "move-dest-absent", "move-dest-initialised",
-         "clone-dest-absent", "clone-dest-initialised", "remove", "clear", "reset"]
+         "clone-dest-absent", "clone-dest-initialised", "remove", "clear", "reset", "rekey-update-two-keys",
+         "rekey-set-persistent-cache"]
 
 
 def applicable(op):
